@@ -812,6 +812,8 @@ package rosmar
 //@   ensures [C18:subdocWrite.sets-or-removes] count("call:Collection.WriteCas") >= 1 ==> (if value != nil then iter("mapupdate") == 1 else iter("mapdelete") == 1)
 //@   ensures [C18:subdocWrite.insert-checks-the-addressed-property] insert && count("call:Collection.WriteCas") >= 1 ==> mapwasread(mapid(callret("evalSubdocPath", 0)), callret("parseSubdocPath", 0)[len(callret("parseSubdocPath", 0)) - 1])
 //@   ensures [C18:subdocWrite.writes-the-document-it-walked] count("call:Collection.WriteCas") >= 1 ==> mapid(callarg("Collection.WriteCas", 4)) == mapid(callarg("evalSubdocPath", 0))
+//@   mustfail [C18:subdocWrite.insert-can-succeed] !(insert && err == nil)
+//@   mustfail [C18:subdocWrite.write-can-succeed] !(!insert && err == nil)
 //@   ensures [C03,C18:subdocWrite.decodes-into-fresh-map] count("call:Collection.Get") >= 1 ==> calltargetnil("Collection.Get", 2)
 //@   ensures [C20:subdocWrite.unlocked] any: nolocks()
 
